@@ -2,7 +2,7 @@
 
 Real code: lena.core.Sequence / Source / LenaSequence, lena.core.adapters.Run, lena.core.meta.flatten, run over the
 real element vocabulary (plain callables, Variable, Filter, Slice, Count, RunIf, Reverse, End, Sum/Mean/StoreFilled/
-FillCompute(Count) as fill-compute accumulators, nested Sequence, Split) and over synthetic classes that carry every
+FillCompute(Count) as fill-compute accumulators, explicit adapters.Run, nested Sequence, Split) and over synthetic classes that carry every
 subset of {run, __call__, fill, compute, _has_no_data}.
 Model: lean/LenaModel/Model/C01Stream.lean + C01.lean, theorems lean/LenaModel/Props/C01.lean.
 
@@ -20,8 +20,9 @@ warnings.filterwarnings("ignore", message="the only element of Source is an iter
 PID = "C01"
 TITLE = "Sequence and Source compute the left-to-right composition of their elements"
 LEAN_MODULES = ["LenaModel.Props.C01"]
-LEAN_SOURCES = ["LenaModel/Model/Flow.lean", "LenaModel/Model/C01Stream.lean", "LenaModel/Model/C01.lean",
-                "LenaModel/Lemmas/C01.lean", "LenaModel/Props/C01.lean"]
+LEAN_SOURCES = ["LenaModel/Model/C17.lean", "LenaModel/Model/Flow.lean", "LenaModel/Model/C01Stream.lean",
+                "LenaModel/Model/C01.lean", "LenaModel/Lemmas/C01.lean", "LenaModel/Props/C01.lean",
+                "LenaModel/Lemmas/C17.lean", "LenaModel/Props/C17.lean"]
 DRIVER = "drivers/C01.lean"
 THEOREMS = [
     "Lena.C01.run_eq_fold",
@@ -36,6 +37,14 @@ THEOREMS = [
     "Lena.C01.regroup_any_two",
     "Lena.C01.source_tail",
     "Lena.C01.source_move",
+    "Lena.C01.toTree_build",
+    "Lena.C01.spec_regroup",
+    "Lena.C01.mapS_mapS",
+    "Lena.C01.mapS_total",
+    "Lena.C01.filterS_total",
+    "Lena.C01.fcSpec_total",
+    "Lena.C01.sliceS_ofList",
+    "Lena.C01.reverseS_ofList",
 ]
 TRUSTED = [
     "Lean 4.33.0 kernel; axioms limited to propext, Classical.choice, Quot.sound (audited by #print axioms on every run)",
@@ -59,7 +68,7 @@ ASSUMPTIONS = [
 ]
 RULE = ("exhaustive: capability flags of every vocabulary kind and of all 108 synthetic classes (run/fill/compute in "
         "{absent, non-callable, method} x callable x _has_no_data), each of them as the only element / between two "
-        "elements of a Sequence, as first element and in the tail of a Source; all ordered pairs of 40 representative "
+        "elements of a Sequence, as first element and in the tail of a Source; all ordered pairs of 44 representative "
         "elements x 2 flows x both groupings; ALL bracketings (nodes of arity >= 2: 2, 6, 22 and in thorough 90 per list) "
         "of seeded random element lists of length 2..4 (thorough ..5) plus decorated ones (empty and unary nested "
         "Sequences); every Source cut point. sampled (seeded): programs of length 0..8 over the whole vocabulary (nested "
@@ -116,11 +125,12 @@ def model_value(j):
 EXC = {"Other:ValueError": ValueError, "Other:TypeError": TypeError, "Other:IndexError": IndexError}
 
 
-def make_flow(flow, term):
-    """the input iterator: yields fresh copies of the values, then raises `term` (if any)"""
+def make_flow(flow, term, as_list=False):
+    """the input flow: an iterator (or, with as_list, the list itself) over fresh copies of the values, which
+    then raises `term` (if any)"""
     vals = dec(flow)
     if term is None:
-        return iter(vals)
+        return vals if as_list else iter(vals)
 
     def failing():
         for v in vals:
@@ -312,6 +322,8 @@ def build(spec):
         return lena.core.Sequence(*[build(s) for s in spec["els"]])
     if k == "split":
         return lena.core.Split([tuple(build(s) for s in b) for b in spec["branches"]], bufsize=spec["bufsize"])
+    if k == "run":
+        return lena.core.Run(build(spec["el"]))
     if k == "syn":
         return syn_class(spec["run"], spec["call"], spec["fill"], spec["compute"], spec["nodata"])()
     if k == "junk":
@@ -412,12 +424,12 @@ def _construct(thunk):
         return None, {"e": exc_name(e), "phase": "init"}
 
 
-def run_variant(els, brk, flow, term):
+def run_variant(els, brk, flow, term, as_list=False):
     import lena.core
     seq, err = _construct(lambda: lena.core.Sequence(*[build(s) for s in nest(els, brk)]))
     if err:
         return err
-    return observe(lambda: seq.run(make_flow(flow, term)))
+    return observe(lambda: seq.run(make_flow(flow, term, as_list)))
 
 
 def run_flat(els, brk, flow, term):
@@ -483,7 +495,7 @@ def run_impl(case):
     op = case["op"]
     if op == "regroup":
         els, flow, term = case["els"], case["flow"], case.get("term")
-        res = {"variants": [run_variant(els, b, flow, term) for b in case["brks"]],
+        res = {"variants": [run_variant(els, b, flow, term, bool(case.get("lst"))) for b in case["brks"]],
                "flat": [run_flat(els, b, flow, term) for b in case["brks"][:2]],
                "facts": [{k: v for k, v in f.items() if k != "flags"} for f in element_facts(els)],
                "ref": reference(els, flow, term)}
@@ -535,6 +547,7 @@ def model_requests(case):
         b0 = case["brks"][0]
         reqs.append({"op": "tree", "prog": nest(els, b0), "flow": flow, "term": term})
         reqs.append({"op": "fold", "prog": nest(els, b0), "flow": flow, "term": term})
+        reqs.append({"op": "flats", "prog": nest(els, case["brks"][-1])})
         return reqs
     if op == "source":
         first, els = case["first"], case["els"]
@@ -579,6 +592,8 @@ def compare(case, res, replies):
         m = _canon_reply(replies[k + 1])
         if "e" not in res["variants"][0] and m != res["variants"][0]:
             return f"impl {res['variants'][0]} vs model fold of Element.den {m}"
+        if replies[k + 2].get("n") != len(case["els"]):
+            return f"Spec.flats of bracketing {case['brks'][-1]} has {replies[k + 2]} elements, expected {len(case['els'])}"
         return None
     if op == "source":
         for i, cut in enumerate(case["cuts"]):
@@ -808,7 +823,10 @@ def gen_elem(rng, st, depth):
     """an element, possibly nested (RunIf, Split, Sequence inside those)"""
     r = rng.random()
     if depth >= 3 or r < 0.78:
-        return gen_atom(rng, st)
+        a = gen_atom(rng, st)
+        if rng.random() < 0.06:
+            return {"k": "run", "el": a}          # the caller wraps the element with adapters.Run itself
+        return a
     inner_st = {"rerun": True, "branch": False, "floaty": st["floaty"]}
     if r < 0.88:
         n = rng.choice([0, 1, 1, 2, 3])
@@ -861,7 +879,9 @@ REPRESENTATIVES = (
        {"k": "syn", "run": 2, "call": True, "fill": 2, "compute": 2, "nodata": True},
        {"k": "syn", "run": 0, "call": False, "fill": 2, "compute": 1, "nodata": False},
        {"k": "junk", "v": "int"}, {"k": "setctx"},
-       {"k": "slice", "args": [0, 5, 0]}]
+       {"k": "slice", "args": [0, 5, 0]},
+       {"k": "run", "el": {"k": "call", "f": "inc"}}, {"k": "run", "el": {"k": "acc", "a": "sum"}},
+       {"k": "run", "el": {"k": "count", "name": "n"}}, {"k": "run", "el": {"k": "junk", "v": "int"}}]
 )
 
 FLOW_A = [1, 2, 3, 4, 13, 6]
@@ -881,6 +901,8 @@ def _floaty_conflict(els):
     """Sum/Mean after a Mean would do float arithmetic (not modelled)"""
     seen = False
     for e in els:
+        if e["k"] == "run":
+            e = e["el"]
         if e["k"] == "acc" and e["a"] in ("sum", "mean"):
             if seen:
                 return True
@@ -907,6 +929,8 @@ def gen_cases(ctx):
     inc = {"k": "call", "f": "inc"}
     for s in all_syn():
         cases.append({"op": "flags", "spec": s})
+        cases.append({"op": "flags", "spec": {"k": "run", "el": s}})
+        cases.append({"op": "regroup", "els": [{"k": "run", "el": s}], "flow": [1, 2], "term": None, "brks": [[0], [[0]]]})
         cases.append({"op": "regroup", "els": [s], "flow": [1, 2], "term": None, "brks": [[0], [[0]]]})
         cases.append({"op": "regroup", "els": [inc, s, inc], "flow": [1, 2, 3], "term": None,
                       "brks": [[0, 1, 2], [[0, 1], 2], [0, [1, 2]], [0, [1], 2]]})
@@ -939,21 +963,24 @@ def gen_cases(ctx):
             cases.append({"op": "regroup", "els": [a], "flow": fl, "term": term, "brks": [[0], [[0]]]})
             cases.append({"op": "source", "first": {"k": "gen", "flow": fl}, "els": [a, inc], "cuts": [0, 1, 2, 3]})
     # all bracketings of random lists
-    plan = [(2, 30), (3, 40), (4, 25)] if not thorough else [(2, 100), (3, 200), (4, 150), (5, 60)]
+    plan = [(2, 30), (3, 40), (4, 30)] if not thorough else [(2, 200), (3, 400), (4, 300), (5, 150)]
     for n, count in plan:
         brks = all_bracketings(n)
         for _ in range(count):
             els = gen_prog(rng, n)
             cases.append({"op": "regroup", "els": els, "flow": gen_flow(rng), "term": gen_term(rng), "brks": brks})
     # ---- sampled ------------------------------------------------------------------------------------
-    n_rand = 1500 if not thorough else 60000
+    n_rand = 3000 if not thorough else 150000
     for _ in range(n_rand):
         n = rng.choice([0, 1, 2, 2, 3, 3, 4, 4, 5, 6, 7, 8])
         els = gen_prog(rng, n)
         nb = rng.randint(2, 5)
         brks = [flat_bracketing(n)] + [random_bracketing(rng, n) for _ in range(nb)]
-        cases.append({"op": "regroup", "els": els, "flow": gen_flow(rng), "term": gen_term(rng), "brks": brks})
-    n_src = 500 if not thorough else 20000
+        case = {"op": "regroup", "els": els, "flow": gen_flow(rng), "term": gen_term(rng), "brks": brks}
+        if case["term"] is None and rng.random() < 0.3:
+            case["lst"] = True       # Sequence.run is handed the list itself, not an iterator over it
+        cases.append(case)
+    n_src = 1000 if not thorough else 50000
     for _ in range(n_src):
         n = rng.choice([0, 1, 2, 3, 4, 5, 6])
         els = gen_prog(rng, n)
@@ -987,7 +1014,7 @@ def _kinds(spec, out):
         out.append("syn:" + mode)
     else:
         out.append(k)
-    for s in spec.get("inner", []) + spec.get("els", []):
+    for s in spec.get("inner", []) + spec.get("els", []) + ([spec["el"]] if "el" in spec else []):
         _kinds(s, out)
     for b in spec.get("branches", []):
         for s in b:
@@ -1028,6 +1055,8 @@ def classify(case, res):
         labels.append("nestdepth:%d" % max(_depth(b) for b in case["brks"]))
         if case.get("term"):
             labels.append("input-raises")
+        if case.get("lst"):
+            labels.append("input-is-list")
     return labels
 
 
@@ -1063,6 +1092,8 @@ def shrink(case):
             yield dict(case, flow=case["flow"][:i] + case["flow"][i + 1:])
         if case.get("term"):
             yield dict(case, term=None)
+        if case.get("lst"):
+            yield {k: v for k, v in case.items() if k != "lst"}
         for i, e in enumerate(case["els"]):
             for sub in ("inner", "els"):
                 if e.get(sub):
